@@ -110,7 +110,8 @@ theorem decodeSn_two (b1 b2 : Nat) (rest : Bytes) (e : Encoding) (h : b1 / 128 %
 
 /-- the two-octet split of the sequence number is inverted by the decoder, whatever follows -/
 theorem sn_roundtrip (sn : Nat) (enc : Option Encoding) (hs : sn ≤ 127) (rest : Bytes) :
-    ∃ bs, encodeSn (some sn) enc = .ok bs ∧ bs.length ≤ 2 ∧
+    ∃ bs, encodeSn (some sn) enc = .ok bs ∧
+      (bs.length = if sn > 31 ∨ hasEnc enc = true then 2 else 1) ∧
       decodeSn (bs ++ rest) 0 = .ok (bs.length, sn, normEnc enc) := by
   obtain ⟨e1, e2, e3⟩ := enc_ucs2
   unfold encodeSn
@@ -118,16 +119,16 @@ theorem sn_roundtrip (sn : Nat) (enc : Option Encoding) (hs : sn ≤ 127) (rest 
   rw [if_neg (by omega)]
   cases henc : hasEnc enc
   · by_cases h31 : sn > 31
-    · refine ⟨[128 * 1 + sn % 32, 32 * (sn / 32) + 0], ?_, by simp, ?_⟩
+    · refine ⟨[128 * 1 + sn % 32, 32 * (sn / 32) + 0], ?_, by simp [h31], ?_⟩
       · simp [h31]
       · rw [List.cons_append, List.cons_append, List.nil_append,
           decodeSn_two _ _ _ .undefined (by omega) (by rw [← e3]; congr 1; omega)]
         simp [normEnc, henc]; omega
-    · refine ⟨[128 * 0 + sn % 32], ?_, by simp, ?_⟩
+    · refine ⟨[128 * 0 + sn % 32], ?_, by simp [h31, henc], ?_⟩
       · simp [h31]
       · rw [List.cons_append, List.nil_append, decodeSn_one _ _ (by omega)]
         simp [normEnc, henc]; omega
-  · refine ⟨[128 * 1 + sn % 32, 32 * (sn / 32) + Encoding.ucs2le.val], ?_, by simp, ?_⟩
+  · refine ⟨[128 * 1 + sn % 32, 32 * (sn / 32) + Encoding.ucs2le.val], ?_, by simp [henc], ?_⟩
     · simp; omega
     · rw [List.cons_append, List.cons_append, List.nil_append,
         decodeSn_two _ _ _ .ucs2le (by omega) (by rw [← e2]; congr 1; omega)]
@@ -305,6 +306,7 @@ theorem parseTail_body (p : Msg) (hwf : wf p = true) :
         simp only [wf, Bool.and_eq_true] at hwf
         simpa using hwf.2
       obtain ⟨bs, h1, h2, h3⟩ := sn_roundtrip sn enc hs []
+      have h2 : bs.length ≤ 2 := by rw [h2]; split <;> omega
       refine ⟨true, bs, ?_, by omega, ?_⟩
       · simp [body, h1]
       · rw [List.append_nil] at h3
@@ -320,6 +322,7 @@ theorem parseTail_body (p : Msg) (hwf : wf p = true) :
           simp only [wf, Bool.and_eq_true] at hwf
           simpa using hwf.2
         obtain ⟨bs, h1, h2, h3⟩ := sn_roundtrip sn enc hs.1 m
+        have h2 : bs.length ≤ 2 := by rw [h2]; split <;> omega
         refine ⟨true, bs ++ m, ?_, by simp; omega, ?_⟩
         · simp [body, h1]
         · simp [parseTail, norm, h3]
